@@ -158,3 +158,16 @@ Proof.
     cbn [ofun_eq]. intros a s0. rewrite !drop_native_rows. reflexivity.
   - apply ofun_eq_refl.
 Qed.
+
+(* "next to dynamic facts": the answers of a call are the answers of the stored facts name/arity, in order, followed by the
+   answers of the function found for it (compiled, builtin or Python); an exception in either ends the enumeration there *)
+Theorem dynamic_facts_first call w name args s :
+  Resolve.reserved name = false ->
+  nstep call w name args s =
+  (let d := match_rows (w_dyn w name (length args)) args s in
+   if snd d then (fst d, true)
+   else (fst d ++ fst (call_function call w name args s), snd (call_function call w name args s))).
+Proof.
+  intros R. unfold nstep. rewrite R. destruct (match_rows (w_dyn w name (length args)) args s) as [ds de]. cbn [fst snd].
+  destruct de; [reflexivity|]. destruct (call_function call w name args s) as [fs fe]. reflexivity.
+Qed.
